@@ -189,8 +189,9 @@ func c07Exec(c *fw.Ctx, cas c07Case) {
 		}
 		got = append(got, buf[:n]...)
 		before := len(got) - n
-		if cas.Writes {
-			// an event notification or a response is written between two reads (possibly of the same frame)
+		if cas.Writes && (pi <= 6 || pi%97 == 0) {
+			// an event notification or a response is written between two reads (possibly of the same frame): after each of
+			// the first six reads, then after every 97th
 			conn.Write(pat(40+pi%3*600, byte(pi)))
 		}
 		if !bytes.HasPrefix(plain, got) {
@@ -463,7 +464,7 @@ func c07Run(c *fw.Ctx) {
 			if len(s) == 1 || th || (s[0] <= 1025 && s[1] <= 1025) {
 				for x := 1; x < total; x++ { // split at every byte offset
 					do(c07Case{Lens: s, Cuts: []int{x}, Bufs: p})
-					if len(s) == 1 && (p[0] < 4096 || th) {
+					if len(s) == 1 && (p[0] < 1024 && s[0] <= 2048 || th) {
 						do(c07Case{Lens: s, Cuts: []int{x}, Bufs: p, Writes: true})
 					}
 				}
